@@ -40,6 +40,9 @@
      lazy_thunk_error_cites_creator, lazy_value_error_cites_creator, lazy_creator_context_wins, lazy_thunk_error_not_plain   (2)
      lazy_stmt_error_cites_statement, lazy_exec_error_cites_statement   (3)
      lazy_run_error_cites   (whole run from the initial state: one of the above, no other case)
+     lazy_created_values_cite_statement   (what "creator" means: every thunk, pending scoped definition and deferred
+       statement stored while a statement runs carries the error context of that statement, or — for `if`/`for`/`scan` — of a
+       statement nested in it, whose location the nested block put into error_context; `ctx_stored s d`: d is stored in s)
 
    Left to the correspondence stream: the node KIND / source position shown for the node (the model identifies nodes by
    index) and the statement TEXT of a context (the model keeps locations only). *)
@@ -450,4 +453,29 @@ Proof.
   cbn [l_edges l_attrs l_prints app].
   eexists [_], _, []. split; [reflexivity|]. right. exists (KNode 0 [107]), {| sc_stmt := (3, 2); sc_stanza := (0, 0); sc_node := 7 |}.
   split; [reflexivity|]. split; [left; reflexivity|]. right. eexists. split; [left; reflexivity|]. split; [reflexivity|left; reflexivity].
+Qed.
+
+(* who the "creator" is: whatever the run of statement s stores (thunk debug infos, pending scoped definitions, deferred
+   statements) was there before or carries the error context of s — statement location included, as the enclosing block
+   set it — or that context moved to a statement nested in s; for a statement without nested blocks: exactly ll_ctx le *)
+Theorem lazy_created_values_cite_statement : forall {rx : Type} t fl cfg glob (regexes : list rx) find call fuel le s s0 p0 s1 p1 d,
+  call_errors_base call ->
+  lexec_stmt t fl cfg glob regexes find call fuel le s s0 p0 = Ok (tt, s1, p1) ->
+  ctx_stored s1 d ->
+  ctx_stored s0 d \/ d = ll_ctx le \/ exists s', In s' (stmt_subs s) /\ d = ctx_update (ll_ctx le) s'.
+Proof.
+  intros rx t fl cfg glob regexes find call fuel le s s0 p0 s1 p1 d Hc.
+  exact (lexec_stmt_stores_own_ctx t fl cfg glob regexes find call Hc fuel le s s0 p0 s1 p1 d).
+Qed.
+
+(* `let x = (f)` run with the error context of line 1 stores one thunk, with exactly that context *)
+Example c20_lazy_created_nonvacuous :
+  let le := {| ll_match := [(0, [7])]; ll_full := 0; ll_caps := []; ll_ctx := ex_d 1 |} in
+  exists s1 p1,
+    lexec_stmt ex_tree ex_fl0 config0 [[]] (@nil unit) (fun _ _ => None) ex_call 10 le (SLet (VarU [120] (1, 4)) (ECall [102] []) (1, 0)) (linit []) (polls0 None)
+      = Ok (tt, s1, p1) /\
+    store_dbgs s1 = [ex_d 1] /\ ctx_stored s1 (ex_d 1) /\ ~ ctx_stored (linit []) (ex_d 1).
+Proof.
+  cbv zeta. eexists; eexists. split; [vm_compute; reflexivity|]. split; [reflexivity|]. split; [left; left; reflexivity|].
+  intros [H|[(name & ps & x & H & _)|[H|H]]]; try contradiction. discriminate.
 Qed.
